@@ -1105,6 +1105,26 @@ impl<'a, T: Elem + SatisfyTraits<Tr>, M: MemCaps, Tr: ?Sized + TrCaps> Cx<'a, T,
     }
 
     fn exec_splice(&mut self, v: usize, range: (Bound<usize>, Bound<usize>), typed: bool, repl: &Repl, script: &[Step], end: End) {
+        if let Repl::Growing(ids, k) = repl {
+            let n0 = ids.len() - *k;
+            let q = monalloc::user_scope(|| {
+                let mut d = std::collections::VecDeque::with_capacity(ids.len() + 1);
+                d.extend(ids[..n0].iter().map(|i| T::make(*i)));
+                std::rc::Rc::new(std::cell::RefCell::new(d))
+            });
+            if typed {
+                let mut tv = self.vec(v).downcast_mut::<T>().expect("typed view of the right type");
+                let it = tv.splice(range, SharedQueue(q.clone()));
+                monalloc::user_scope(|| ids[n0..].iter().for_each(|i| q.borrow_mut().push_back(T::make(*i))));
+                self.run_script_typed(it, script, end);
+            } else {
+                let it = self.vec(v).splice(range, SharedQueue(q.clone()).map(AnyValueWrapper::new));
+                monalloc::user_scope(|| ids[n0..].iter().for_each(|i| q.borrow_mut().push_back(T::make(*i))));
+                self.run_script(it, script, end);
+            }
+            monalloc::user_scope(|| drop(q));
+            return;
+        }
         if typed {
             let ids: &[Id] = match repl {
                 Repl::Wrappers(ids) => ids,
@@ -1138,6 +1158,7 @@ impl<'a, T: Elem + SatisfyTraits<Tr>, M: MemCaps, Tr: ?Sized + TrCaps> Cx<'a, T,
                 self.run_script(it, script, end);
                 drop(slots);
             }
+            Repl::Growing(..) => unreachable!("handled above"),
             Repl::DrainOf(w, a, b) => {
                 assert_ne!(v, *w, "HARNESS: source == destination");
                 let d = self.vec(*w).drain(*a..*b);
@@ -1184,6 +1205,26 @@ impl<'a, T: Elem + SatisfyTraits<Tr>, M: MemCaps, Tr: ?Sized + TrCaps> Cx<'a, T,
 
 /// A type that is never an element type.
 pub struct Foreign;
+
+/// An honest replacement iterator over a shared queue (its owner may append to the queue while the splice handle is alive).
+pub struct SharedQueue<T>(pub std::rc::Rc<std::cell::RefCell<std::collections::VecDeque<T>>>);
+impl<T> Iterator for SharedQueue<T> {
+    type Item = T;
+    fn next(&mut self) -> Option<T> {
+        reg::user_call("repl-next");
+        self.0.borrow_mut().pop_front()
+    }
+    fn size_hint(&self) -> (usize, Option<usize>) {
+        let n = self.0.borrow().len();
+        (n, Some(n))
+    }
+}
+impl<T> ExactSizeIterator for SharedQueue<T> {
+    fn len(&self) -> usize {
+        reg::user_call("repl-len");
+        self.0.borrow().len()
+    }
+}
 
 pub fn splice_lazy_impl<T, M, Tr>(
     cx: &mut Cx<T, M, Tr>,
